@@ -11,7 +11,7 @@ import random
 import re
 
 from ..core import fhex
-from ..fs import FsSeam, snapshot, read_bytes, REAL_OPEN
+from ..fs import FsSeam, snapshot, read_bytes, REAL_OPEN, REAL_REMOVE
 from .. import specs
 
 name = 'out'
@@ -112,10 +112,13 @@ def make_ops(rng, cfg, profile, tier):
             ops.append({'op': 'RECYCLE', 'a': [mi]})
         elif r < 0.82:
             ops.append({'op': 'TOML', 'a': [], 'values': _toml_values(rng),
-                        'spelling': rng.choice(['True', 'true', 'Yes', 'yes'])})
+                        'spelling': rng.choice(['True', 'true', 'Yes', 'yes']),
+                        'values2': _toml_values(rng) if rng.random() < 0.6 else None})
         elif r < 0.92:
             ops.append({'op': 'PLANT', 'a': [mi, rng.choice(EXTS + ['dat', 'csv']),
                                              rng.choice(['base', 'gap', 'many', 'dir', 'empty', 'other', 'first3'])]})
+        elif r < 0.935:
+            ops.append({'op': 'CLEAN', 'a': [rng.random() < 0.5]})
         elif r < 0.96:
             ops.append({'op': 'ADVANCE_CLOCK', 'a': [rng.randrange(0, 21600)]})
         else:
@@ -539,6 +542,27 @@ class Session:
                             ctx.fail('I14.4', f'parameter {key.name} [{key.section}] dumped as {want!r} '
                                               f'reads back as {got!r}')
                     ctx.probe('toml round trip compared')
+                    if op.get('values2'):
+                        # second generation: the object that was READ is changed and dumped again (and so is the
+                        # object that was dumped): the file must hold the values of the object at the time of the dump
+                        for who, obj in (('read', q), ('dumped', p)):
+                            for k, v in op['values2'].items():
+                                obj.set_value(k, v)
+                            self.exempt_now = {'params.toml'}
+                            ok3, _ = self._lib('I14.4.raise', obj.dump_file, 'params.toml')
+                            if not ok3:
+                                break
+                            r3 = Parameters()
+                            ok4, _ = self._lib('I14.4.raise', r3.read_file, 'params.toml')
+                            if not ok4:
+                                break
+                            for key, tup in obj.all_parameters_dict.items():
+                                want = tup.value
+                                got = r3.get_value(key.name, key.section)
+                                if got != want or isinstance(want, bool) != isinstance(got, bool):
+                                    ctx.fail('I14.4', f'parameter {key.name} [{key.section}] of an object that had been '
+                                                      f'{who} before, changed and dumped as {want!r}, reads back as {got!r}')
+                            ctx.probe('toml second generation compared')
             ctx.log(kind, len(op['values']))
         elif kind == 'PLANT':
             model, ext, pat = MODELS[a[0]], a[1], a[2]
@@ -573,6 +597,19 @@ class Session:
                         f.write(b'' if pat == 'empty' else f'planted {nm}\n'.encode())
                     self.planted.add(nm)
             ctx.log(kind, stem, ext, pat)
+        elif kind == 'CLEAN':
+            # the user moves the outputs away (all of them, or only the pickles): the names are free again, and what
+            # is written and loaded under them afterwards is the new content
+            gone = sorted(f for f, m in pre.items() if m[0] == 'file' and not EXEMPT.match(f)
+                          and (a[0] or f.endswith('.pickle')))
+            for f in gone:
+                REAL_REMOVE(os.path.join(ctx.scratch, f))
+            self.exempt_now = set(gone)
+            self.pickles = [pk for pk in self.pickles if pk['file'] not in gone]
+            self.planted -= set(gone)
+            if gone:
+                ctx.probe('outputs moved away, names free again')
+            ctx.log(kind, len(gone))
         elif kind == 'ADVANCE_CLOCK':
             CLOCK.advance(a[0])
             ctx.sim_seconds += a[0]
